@@ -166,3 +166,43 @@ def has_txid_cell(P, tags):
                         if f[0] == field and "TxId" in f[1]:
                             return True
     return False
+
+
+def index_move_order(ctx, P, rule):
+    """when a function takes an entity out of one property-index bucket and puts it into another, the removal comes
+    first (if both buckets coincide - a value re-written unchanged - the opposite order loses the entity)"""
+    from .flow import FlowCx, callee_name
+    # ---- R3 re-indexing order: when a function takes an entity out of one index bucket and puts it into another,
+    # the removal comes first. If old and new key coincide (a property re-written with the same value), the opposite
+    # order inserts the entity and then removes it again: the index loses an entity the scan still finds.
+    n3 = 0
+    L = LPG
+    for f in P.methods_of("LpgStore"):
+        if f.impl_self != L or f.impl_trait:
+            continue
+        fx = None
+        ins, rem = [], []
+        for g in [f]:
+            for bi, t in g.calls():
+                c = callee_name(t)
+                last = c.split("::")[-1]
+                if not t["args"]:
+                    continue
+                if c.startswith("dashmap::") and last in ("entry", "insert"):
+                    fx = fx or FlowCx(P, g)
+                    if "cell:LpgStore.property_indexes" in fx.tags(t["args"][0]):
+                        ins.append(bi)
+                elif (c.startswith("dashmap::") and last in ("remove", "remove_if")) or \
+                        (("HashSet" in c or "hashbrown::set" in c) and last == "remove"):
+                    fx = fx or FlowCx(P, g)
+                    if "cell:LpgStore.property_indexes" in fx.tags(t["args"][0]):
+                        rem.append(bi)
+        if ins and rem:
+            n3 += 1
+            bad = [(i, r) for i in ins for r in rem if r in f.reachable_blocks(i) and r != i]
+            ctx.ob(rule, "LpgStore::%s#remove-before-insert" % f.id.split("::")[-1], not bad,
+                   what="LpgStore::%s inserts the node into its new property-index bucket and removes it from the old one "
+                        "afterwards: when both are the same bucket (value re-written unchanged) the node disappears from the index "
+                        "while a scan still finds it" % f.id.split("::")[-1], where=f.loc())
+    ctx.floor(rule, n3, 1, "functions that move an entity between property-index buckets")
+
